@@ -485,6 +485,40 @@ func c03(r *mon.Run) {
 			cx.runBoth(tree, gen.Spell(tree), runDoc)
 			t.Nontrivial("run:" + strconv.Itoa(i))
 		}})
+	// operands that are CALLED true, false and null (JMESPath has no keywords: written bare they are member names in every position),
+	// and a bare star as the only member of a dotted multi-select: each spelled minimally, fully parenthesised and with white space
+	{
+		kw := func(n string) *gen.Expr { return &gen.Expr{K: gen.KField, Name: n} }
+		names := []string{"true", "false", "null"}
+		var kts []*gen.Expr
+		for _, x := range names {
+			for _, y := range names {
+				for _, op := range []string{"==", "!=", "<", "<=", ">", ">="} {
+					kts = append(kts, gen.Cmp(op, kw(x), kw(y)), gen.Cmp(op, gen.Field("a"), kw(y)), gen.Cmp(op, kw(x), gen.Field("a")), gen.Chain(gen.Field("a"), gen.StFilter(gen.Cmp(op, gen.Field("b"), kw(y)))),
+						gen.Cmp(op, gen.Chain(kw(x), gen.StField("a")), gen.Chain(gen.Field("a"), gen.Step{K: gen.SField, Name: y})), gen.Or(gen.Cmp(op, gen.Field("a"), kw(y)), kw(x)), gen.Not(gen.Cmp(op, kw(x), kw(y))))
+				}
+				kts = append(kts, gen.Or(kw(x), kw(y)), gen.And(kw(x), kw(y)), gen.Pipe(kw(x), kw(y)), gen.Chain(kw(x), gen.Step{K: gen.SField, Name: y}), gen.MultiList(kw(x), kw(y)), gen.Func("not_null", kw(x), kw(y)),
+					gen.MultiHash([]gen.Key{{Name: x}}, []*gen.Expr{kw(y)}), gen.Chain(kw(x), gen.StFilter(kw(y))), gen.Chain(kw(x), gen.StIndex(0), gen.Step{K: gen.SField, Name: y}), gen.Func("sort_by", kw(x), gen.ExpRef(kw(y))))
+			}
+			kts = append(kts, kw(x), gen.Not(kw(x)), gen.Chain(kw(x), gen.StListStar()), gen.Chain(kw(x), gen.StStar()), gen.Func("length", kw(x)))
+		}
+		// a star in positions where it is an expression of its own
+		star := func() *gen.Expr { return gen.Chain(nil, gen.StStar()) }
+		kts = append(kts, gen.Chain(gen.Field("a"), gen.StMultiList(star())), gen.Chain(gen.Field("a"), gen.StListStar(), gen.StMultiList(star())), gen.Chain(gen.Field("a"), gen.StMultiList(star(), gen.Field("b"))), gen.Chain(gen.Field("a"), gen.StMultiList(gen.Field("b"), star())),
+			gen.MultiList(star()), gen.MultiList(star(), star()), gen.Chain(gen.Field("a"), gen.StMultiHash(keyA("k"), []*gen.Expr{star()})), gen.Func("length", star()), gen.Func("not_null", star(), gen.Field("a")), gen.Or(star(), gen.Field("a")), gen.Cmp("==", star(), star()),
+			gen.Chain(gen.Field("a"), gen.StFilter(star())), gen.Pipe(gen.Field("a"), star()), gen.Not(star()), gen.Chain(gen.Field("a"), gen.StMultiList(gen.Chain(nil, gen.StStar(), gen.StField("b")))), gen.Func("map", gen.ExpRef(star()), gen.Field("a")),
+			// parenthesised arguments in front of an expression reference
+			gen.Func("sort_by", gen.Paren(gen.Field("a")), gen.ExpRef(gen.Field("b"))), gen.Func("map", gen.ExpRef(gen.Paren(gen.Field("a"))), gen.Paren(gen.Field("b"))), gen.Func("max_by", gen.Paren(gen.Or(gen.Field("a"), gen.Field("b"))), gen.ExpRef(gen.Field("b"))),
+			gen.Func("not_null", gen.Paren(gen.Field("a")), gen.Func("sort_by", gen.Field("a"), gen.ExpRef(gen.Field("b")))), gen.Func("sort_by", gen.Func("to_array", gen.Paren(gen.Field("a"))), gen.ExpRef(gen.Paren(gen.Field("b")))))
+		kwDoc := docs.J(`{"true":[{"a":1,"true":2},{"a":2,"null":1}],"false":{"a":0,"false":"f"},"null":1,"a":[{"b":1,"true":1},{"b":null,"c":2}],"b":1}`)
+		ws = append(ws, mon.Workload{Name: "operands-called-true-false-null-and-bare-stars", N: len(kts), Batch: 100,
+			Do: func(i int, t *mon.Tally) {
+				c03Structural(r, t, "operands-called-true-false-null-and-bare-stars", i, kts[i])
+				cx := &caseCtx{r, t, "operands-called-true-false-null-and-bare-stars", i}
+				cx.runBoth(kts[i], gen.Spell(kts[i]), kwDoc)
+				t.Nontrivial("kw:" + strconv.Itoa(i))
+			}})
+	}
 	// a syntax tree belongs to whoever asked for it: parsing the next expression on the same Parser does not change a tree handed
 	// out earlier (every ordered pair of 60 small operator trees, the first tree rendered again after the second parse)
 	pairN := 60
